@@ -37,41 +37,33 @@ Definition push_rune (s : rune_set) (r : N) : rune_set :=
 Definition rs_bind (r : rs_result) (f : rune_set -> rs_result) : rs_result :=
   match r with RsOk s => f s | e => e end.
 
-Definition push_uniform_casefolded_range (t : ucd_table) (s : rune_set) (props start end_ : N) : rs_result :=
-  if has props ptype_Cased then
-    match tolower t start, tolower t end_, toupper t start, toupper t end_ with
-    | Some ls, Some le, Some us, Some ue =>
-        rs_bind (push_range s ls le) (fun s1 => push_range s1 us ue)
-    | _, _, _, _ => RsIndex
-    end
-  else push_range s start end_.
+(* push_casefolded_range: the range itself, then for every rune of it its case folding, lower case and
+   upper case forms when they fall outside the range *)
+Definition push_outside (start end_ : N) (s : rune_set) (m : N) : rune_set :=
+  if (m <? start) || (end_ <? m) then push_rune s m else s.
 
-(* the loop of push_casefolded_range exactly as written: note that the property word [q] is read from
-   query(start) on every iteration (not query(rn)) *)
-Record pcr_state := { pcr_p : N; pcr_r1 : N; pcr_r2 : N; pcr_rn : N; pcr_set : rs_result }.
+Definition pcr_one (t : ucd_table) (start end_ : N) (s : rune_set) (rn : N) : option rune_set :=
+  match tocasefold t rn, tolower t rn, toupper t rn with
+  | Some f, Some l, Some u => Some (push_outside start end_ (push_outside start end_ (push_outside start end_ s f) l) u)
+  | _, _, _ => None
+  end.
 
-Definition pcr_step (t : ucd_table) (start : N) (st : pcr_state) : pcr_state :=
-  match query t start with
-  | None => {| pcr_p := pcr_p st; pcr_r1 := pcr_r1 st; pcr_r2 := pcr_r2 st; pcr_rn := pcr_rn st; pcr_set := RsIndex |}
-  | Some rec =>
-    let q := rec_props rec in
-    let rn := pcr_rn st in
-    if has (N.lxor (pcr_p st) q) ptype_Cased then
-      {| pcr_p := q; pcr_r1 := rn; pcr_r2 := rn; pcr_rn := rn + 1;
-         pcr_set := rs_bind (pcr_set st) (fun s => push_uniform_casefolded_range t s (pcr_p st) (pcr_r1 st) (pcr_r2 st)) |}
-    else
-      {| pcr_p := pcr_p st; pcr_r1 := pcr_r1 st; pcr_r2 := rn; pcr_rn := rn + 1; pcr_set := pcr_set st |}
+(* runes start, start+1, ..., start+n-1 *)
+Fixpoint pcr_loop (t : ucd_table) (start end_ : N) (n : nat) (rn : N) (s : rune_set) : option rune_set :=
+  match n with
+  | O => Some s
+  | S n' => match pcr_one t start end_ s rn with
+            | Some s' => pcr_loop t start end_ n' (rn + 1) s'
+            | None => None
+            end
   end.
 
 Definition push_casefolded_range (t : ucd_table) (s : rune_set) (start end_ : N) : rs_result :=
-  if end_ <? start then RsBadRange
-  else match query t start with
-       | None => RsIndex
-       | Some rec =>
-         let st0 := {| pcr_p := rec_props rec; pcr_r1 := start; pcr_r2 := start; pcr_rn := start + 1; pcr_set := RsOk s |} in
-         let st := N.iter (end_ - start) (pcr_step t start) st0 in
-         rs_bind (pcr_set st) (fun s' => push_uniform_casefolded_range t s' (pcr_p st) (pcr_r1 st) (pcr_r2 st))
-       end.
+  rs_bind (push_range s start end_) (fun s1 =>
+    match pcr_loop t start end_ (N.to_nat (end_ - start + 1)) start s1 with
+    | Some s2 => RsOk s2
+    | None => RsIndex
+    end).
 
 (* ---- sort_and_optimize ---- *)
 Definition iv_ltb (x y : N * N) : bool := (fst x <? fst y) || ((fst x =? fst y) && (snd x <? snd y)).
